@@ -381,6 +381,19 @@ class Input(object):
             self.signatures = [Signature.parse_bytes(self.witnesses[0])]
             self.hash_type = self.signatures[0].hash_type
             self.keys = [Key(self.witnesses[1], network=self.network, strict=self.strict)]
+        elif self.script_type in ['p2sh_multisig', 'p2sh_p2wsh'] and self.witness_type in ['segwit', 'p2sh-segwit'] and \
+                len(self.witnesses) > 2 and not self.signatures:
+            # Multisig witness stack: empty item, signatures, witness script
+            for witness in self.witnesses[1:-1]:
+                if witness in (b'', b'\0'):
+                    continue
+                try:
+                    sig = Signature.parse_bytes(witness)
+                except Exception:
+                    continue
+                self.signatures.append(sig)
+                if sig.hash_type:
+                    self.hash_type = sig.hash_type
 
         given_unlocking_script = self.unlocking_script
         self.update_scripts(hash_type=self.hash_type)
